@@ -27,6 +27,8 @@ def _known_namespace_jobs(seeds, quick, rot=0):
     universe = set()
     kinds = {}       # parent kind -> child kinds (namespace, name) seen under it anywhere in the corpus
     positions = []   # (seed, path, parent kind, own kind, has character data) of every non-root element
+    exemplar = {}    # (parent kind, child kind) -> attributes of the first such child in the corpus
+    containers = []  # (seed, path, own kind, kinds of its children) of every non-root element with element children
 
     def walk(e, si, path, parent_sig=None):
         sig = (e.namespaceURI or "", e.localName)
@@ -38,6 +40,10 @@ def _known_namespace_jobs(seeds, quick, rot=0):
         if parent_sig is not None:
             has_text = not kids and any(c.nodeType in (3, 4) and c.data.strip() for c in e.childNodes)
             positions.append((si, path, parent_sig, sig, has_text))
+            exemplar.setdefault((parent_sig, sig), {a.name: a.value for a in (e.attributes.item(i) for i in range(e.attributes.length))
+                                                    if not a.name.startswith("xmlns")})
+            if kids:
+                containers.append((si, path, sig, {(c.namespaceURI or "", c.localName) for c in kids}))
         n = 0
         for c in kids:
             n += 1
@@ -85,8 +91,21 @@ def _known_namespace_jobs(seeds, quick, rot=0):
             for after, txt in variants:
                 jobs.append({"k": "mut", "id": f"u{len(jobs)}", "seed": si, "off": 0, "anchor": 0, "client": True, "deep": False,
                              "steps": [{"op": "AddKnownSibling", "abs": True, "p": path, "ns": ns, "name": name, "after": after, "txt": txt}]})
+    # DuplicateWithOtherChild: every non-root element that has element children is duplicated, the copy holding ONE
+    # child of another kind known under it (with the attributes of that kind's first occurrence in the corpus).
+    # Thorough: every other kind; quick: 2 kinds per container (rotating with VERIF_SEED).
+    nk = len(jobs)
+    for ci, (si, path, sig, present) in enumerate(containers):
+        others = sorted(kinds.get(sig, set()) - present)
+        if quick and others:
+            others = sorted({others[(ci + rot + k * 5) % len(others)] for k in range(min(2, len(others)))})
+        for ns, name in others:
+            jobs.append({"k": "mut", "id": f"u{len(jobs)}", "seed": si, "off": 0, "anchor": 0, "client": True, "deep": False,
+                         "steps": [{"op": "DuplicateWithOtherChild", "abs": True, "p": path, "ns": ns, "name": name,
+                                    "attrs": exemplar.get((sig, (ns, name)), {})}]})
     return jobs, {"parent_signatures": len(first), "namespaces": len(universe), "root_signatures": len(roots),
-                  "add_unknown_child_documents": nu, "add_known_sibling_documents": len(jobs) - nu,
+                  "containers": len(containers), "duplicate_with_other_child_documents": len(jobs) - nk,
+                  "add_unknown_child_documents": nu, "add_known_sibling_documents": nk - nu,
                   "sibling_positions": len(positions), "position_x_other_kinds": total_kinds}
 
 
@@ -177,7 +196,7 @@ def run(chk, replay=None):
 
     posl = [o for o in lines if o.get("e") == "Positions" and not o.get("from")]
     onestep = [o for o in docs if o["e"] == "Doc" and len(o.get("steps", [])) == 1 and o["steps"][0].get("abs")
-               and o["steps"][0]["op"] not in ("AddUnknownChild", "AddKnownSibling")]
+               and o["steps"][0]["op"] not in ("AddUnknownChild", "AddKnownSibling", "DuplicateWithOtherChild")]
     muts = [o for o in docs if o["e"] == "Doc"]
     nontrivial = {o["h"] for o in muts if o.get("wfdoc") and any(o.get("applied", [])) and o.get("runs", 0) > 0 and "h" in o}
     ops = {}
@@ -198,7 +217,7 @@ def run(chk, replay=None):
         "seed_positions": sum(o["positions"] for o in posl),
         "one_step_documents_planned": sum(o["plans"] for o in posl),
         "one_step_documents_run": len(onestep),
-        "one_step_every_position": "DeleteChild Rename at every element; "
+        "one_step_every_position": "DeleteChild Rename MoveText at every element, Renamespace at every element with element children; "
                                    "DropAttr at every attribute and character-data position, NegativeAttr/NonNumericAttr at every "
                                    "numeric one (NonNumericAttr at every character-data position), UnknownEnum at every word-like one; "
                                    + ("sampled: DuplicateChild SwapSiblings MoveUnderSibling Renamespace Nest(3) EmptyAttr at every 3rd position, "
